@@ -67,6 +67,9 @@ ENTITIES = {
     "LCARRIER": (["CARRIER"], []),
     "USER_B": ([], [("u", ref("UNIT_B"), False, False), ("bs", ("select", [(None, ref("LEFTY", "EXTRA"))]), True, False),
                     ("many", agg(ref("BASE")), False, False)]),
+    "TRI": ([], [("ta", INT, False, False), ("tb", INT, False, False), ("ts", STR, False, False)]),
+    "TRI_D": (["TRI"], [("td", INT, False, False)]),
+    "TRI_E": (["TRI"], [("te", INT, False, False)]),
     "BASE2": ([], [("bn", NUMBER, False, False), ("bt", STR, False, False)]),
     "RED2": (["BASE2"], [("rs", STR, False, False)]),
 }
@@ -74,10 +77,10 @@ ENTITIES = {
 REDECLARED_IN = {("DCARRIER", "load"): ref("DPOINT"), ("LCARRIER", "load"): ref("DPOINT"), ("RED2", "bn"): INT}
 ABSTRACT = {"BASE"}
 # attributes redeclared as DERIVE in a subtype: (entity, supertype attr) -> written as '*'
-DERIVED_IN = {("DPOINT", "tag"), ("SI_B", "dims")}
+DERIVED_IN = {("DPOINT", "tag"), ("SI_B", "dims"), ("TRI_D", "ta"), ("TRI_D", "tb")}
 # legal complex (external-mapping) combinations of the BASE family: ONEOF(lefty, righty) ANDOR extra
 # and len_b ANDOR si_b under unit_b, where si_b derives unit_b.dims (the UNIT_B part is then written UNIT_B(*))
-COMPLEX_LEGAL = [["BASE", "EXTRA", "LEFTY"], ["BASE", "EXTRA", "RIGHTY"], ["LEN_B", "SI_B", "UNIT_B"]]
+COMPLEX_LEGAL = [["BASE", "EXTRA", "LEFTY"], ["BASE", "EXTRA", "RIGHTY"], ["LEN_B", "SI_B", "UNIT_B"], ["TRI", "TRI_D", "TRI_E"]]
 
 
 class Schema:
